@@ -541,6 +541,13 @@ func ruleSerialDrain(c *core.Ctx, rule string, fn *ssa.Function) {
 					}
 				}
 			}
+			if !isHandling && f == g {
+				// the handling of one mail in a private helper (deliver(r, mail)): the helper
+				// invokes the Receiver once, by a plain call, outside any loop, and starts nothing
+				if h := cc.StaticCallee(); h != nil && h != g && isPrivateHelper(c, h) && handlesOneMail(h) {
+					isHandling = true
+				}
+			}
 			if isHandling {
 				nRecv++
 				if f == g {
@@ -685,4 +692,25 @@ func (l *lookupHelper) keyArg() ssa.Value {
 		}
 	}
 	return nil
+}
+
+// handlesOneMail: h invokes Receive exactly once, by a plain call outside any
+// loop, and starts no goroutine.
+func handlesOneMail(h *ssa.Function) bool {
+	n := 0
+	for _, g := range core.AnonFuncs(h) {
+		for _, call := range core.Calls(g) {
+			if _, isGo := call.(*ssa.Go); isGo {
+				return false
+			}
+			cc := call.Common()
+			if cc.IsInvoke() && cc.Method.Name() == "Receive" {
+				if _, plain := call.(*ssa.Call); !plain || g != h || loopHeaderOf(call.(ssa.Instruction)) != nil {
+					return false
+				}
+				n++
+			}
+		}
+	}
+	return n == 1
 }
